@@ -11,6 +11,8 @@ pub trait Hooks {
     /// an execution of the wrapped probe iterator's `next` (mutual exclusion + happens-before
     /// bookkeeping; yields in the middle)
     fn probe_access(&self);
+    /// a read of the wrapped probe iterator's state (`size_hint`)
+    fn probe_read(&self);
     /// an elementary operation of virtual thread `tid` starts
     fn op_begin(&self, tid: usize);
     /// ... ends; returns (call step, return step)
@@ -100,6 +102,13 @@ pub fn yield_pt() {
 pub fn probe_access() {
     if let Some(h) = hooks() {
         h.probe_access()
+    }
+}
+
+#[inline]
+pub fn probe_read() {
+    if let Some(h) = hooks() {
+        h.probe_read()
     }
 }
 
